@@ -4,7 +4,12 @@ import json, os, subprocess
 V = '/verif'
 props = [json.loads(l) for l in open(f'{V}/properties.jsonl')]
 na = json.load(open(f'{V}/tools/na_reasons.json'))
-hooks_commits = [l.split()[0] for l in subprocess.run(['git','-C','/repo','log','--format=%h %s'],capture_output=True,text=True).stdout.splitlines() if l.split(' ',1)[1].startswith('verif:')]
+# hook commits: every commit in /repo that touches nothing but the guarded contract files (whatever its message says)
+hooks_commits = []
+for l in subprocess.run(['git','-C','/repo','log','--format=%h'],capture_output=True,text=True).stdout.split():
+    files = subprocess.run(['git','-C','/repo','show','--name-only','--format=',l],capture_output=True,text=True).stdout.split()
+    if files and all(os.path.basename(f) == 'zz_verif_contracts.go' for f in files):
+        hooks_commits.append(l)
 checks, not_app, served = [], [], []
 for p in props:
     pid = p['id']
